@@ -15,7 +15,7 @@ import sys
 import tempfile
 
 VERIF = os.path.dirname(os.path.abspath(__file__))
-TARGET = '/tmp/wt_target'
+TARGET = os.environ.get('INGEST_TARGET', '/tmp/wt_target')
 
 
 def sh(cmd, cwd=None, env=None, timeout=3600):
